@@ -83,6 +83,16 @@ func runC12(r *core.Run) {
 				if !bytes.Equal(ri, want) || !bytes.Equal(rem, []byte{0xAA, 0xBB}) {
 					bad("reader", "ReadInteger", "input %x size %d -> %x rem %x", in, n, []byte(ri), rem)
 				}
+				// the exact-length buffer (nothing follows) and the pointer-returning twin on both shapes
+				if re, rm := data.ReadInteger(want, n); !bytes.Equal(re, want) || len(rm) != 0 {
+					bad("reader", "ReadInteger", "exact-length input %x size %d -> %x rem %x", want, n, []byte(re), rm)
+				}
+				for _, buf := range [][]byte{want, in} {
+					pi2, rm, e := data.NewInteger(buf, n)
+					if e != nil || pi2 == nil || !bytes.Equal(*pi2, want) || !bytes.Equal(rm, buf[n:]) {
+						bad("reader", "NewInteger", "input %x size %d -> %v rem %x err %v", buf, n, pi2, rm, e)
+					}
+				}
 				if n > 1 {
 					short, rem2 := data.ReadInteger(want[:n-1], n)
 					if len(short) >= n || len(rem2) != 0 {
